@@ -11,9 +11,11 @@
      lvl >= 3: conditionals `?>` `!>` and else-chains `|>`,
      lvl >= 4: nested expressions `{ body }` whose body is one expression of
                the fragment (no separators inside),
-     lvl >= 5: re-apply `^~ e` (restarts the enclosing expression body).
-   Side-effect blocks [ ] and separators are outside (the reference parser
-   Spec/Pratt.v is undefined on them).
+     lvl >= 5: re-apply `^~ e` (restarts the enclosing expression body),
+     lvl >= 6: sequences `l ; r` (at the top of a program or of a `{ }` body;
+               a round group does not contain a sequence directly).
+   Side-effect blocks [ ] and the blank-line separator are outside (the
+   reference parser Spec/Pratt.v is undefined on them).
 
    [rtree_of_expr e off]: the reference tree (Spec/Pratt.v) of the tokens
    Spec/Printer.v prints for e, when the first token of e has index [off].
@@ -25,19 +27,22 @@ From GV Require Import Gen.TokenTypes Gen.Defs Model.Parser Spec.RefTable Spec.P
   Spec.Ast Spec.Printer.
 Import ListNotations.
 
+Definition is_semi (s : sep) : bool := match s with Semi => true | Blank => false end.
+
 Fixpoint efrag (lvl : nat) (e : expr) : bool :=
   match e with
   | ELit _ | EValue | EIdent _ => true
   | EUn _ x => efrag lvl x
   | EBin _ l r => efrag lvl l && efrag lvl r
-  | EGroup x => efrag lvl x
+  | EGroup x => negb (is_seq x) && efrag lvl x
   | EList _ l r => Nat.leb 1 lvl && efrag lvl l && efrag lvl r
   | EAnd l r | EOr l r => Nat.leb 2 lvl && efrag lvl l && efrag lvl r
   | ECond _ c a => Nat.leb 3 lvl && efrag lvl c && efrag lvl a
   | EElse l r => Nat.leb 3 lvl && efrag lvl l && efrag lvl r
   | ENested _ b => Nat.leb 4 lvl && efrag lvl b
   | EReapply x => Nat.leb 5 lvl && efrag lvl x
-  | ESeq _ _ _ | ESide _ _ => false
+  | ESeq s l r => is_semi s && Nat.leb 6 lvl && efrag lvl l && efrag lvl r
+  | ESide _ _ => false
   end.
 
 (* number of tokens printed for e *)
@@ -68,6 +73,7 @@ Definition as_binary (e : expr) : option (option token_type * expr * expr) :=
   | EList Comma l r => Some (Some TT_Comma, l, r)
   | ECond neg c a => Some (Some (cond_tt neg), c, a)
   | EElse l r => Some (Some TT_ElseJump, l, r)
+  | ESeq Semi l r => Some (Some TT_ExpressionSeparator, l, r)
   | _ => None
   end.
 
@@ -82,9 +88,9 @@ Fixpoint rtree_of_expr (e : expr) (off : nat) : rtree :=
   | EReapply x => RPre (hdef e) off (rtree_of_expr x (off + 2))
   | EList Space l r =>
       RBin D_List None (rtree_of_expr l off) (rtree_of_expr r (off + ntoks l + 1))
-  | EBin _ l r | EAnd l r | EOr l r | EList Comma l r | ECond _ l r | EElse l r =>
+  | EBin _ l r | EAnd l r | EOr l r | EList Comma l r | ECond _ l r | EElse l r | ESeq Semi l r =>
       RBin (hdef e) (Some (off + ntoks l + 1)) (rtree_of_expr l off) (rtree_of_expr r (off + ntoks l + 3))
-  | ESeq _ _ _ | ESide _ _ => RAtom D_Drop off
+  | ESeq Blank _ _ | ESide _ _ => RAtom D_Drop off
   end.
 
 (* the items (Spec/Pratt.v) of the printed tokens *)
@@ -98,9 +104,9 @@ Fixpoint eitems (e : expr) (off : nat) : list item :=
   | ENested _ b => IOpen BCurly off :: eitems b (off + 2) ++ [IClose BCurly (off + 3 + ntoks b)]
   | EReapply x => IPrefix (hdef e) off :: eitems x (off + 2)
   | EList Space l r => eitems l off ++ IBinary D_List None :: eitems r (off + ntoks l + 1)
-  | EBin _ l r | EAnd l r | EOr l r | EList Comma l r | ECond _ l r | EElse l r =>
+  | EBin _ l r | EAnd l r | EOr l r | EList Comma l r | ECond _ l r | EElse l r | ESeq Semi l r =>
       eitems l off ++ IBinary (hdef e) (Some (off + ntoks l + 1)) :: eitems r (off + ntoks l + 3)
-  | ESeq _ _ _ | ESide _ _ => []
+  | ESeq Blank _ _ | ESide _ _ => []
   end.
 
 (* the definition the parser stores for an atom *)
@@ -131,15 +137,15 @@ Fixpoint rep (e : expr) (off : nat) (t : ntree) : Prop :=
       | NBin _ d k tl tr => d = D_List /\ k = None /\ rep l off tl /\ rep r (off + ntoks l + 1) tr
       | _ => False
       end
-  | EBin _ l r | EAnd l r | EOr l r | EList Comma l r | ECond _ l r | EElse l r =>
+  | EBin _ l r | EAnd l r | EOr l r | EList Comma l r | ECond _ l r | EElse l r | ESeq Semi l r =>
       match t with
       | NBin _ d k tl tr =>
           d = hdef e /\ k = Some (off + ntoks l + 1) /\ rep l off tl /\ rep r (off + ntoks l + 3) tr
       | _ => False
       end
-  | ESeq _ _ _ | ESide _ _ => False
+  | ESeq Blank _ _ | ESide _ _ => False
   end.
 
 (* the fragment the end-to-end theorem of C01 is stated for: all levels *)
-Definition LV : nat := 5.
+Definition LV : nat := 6.
 Definition frag_e2e (e : expr) : bool := efrag LV e.
